@@ -5,6 +5,8 @@ from ops import ERR
 from framework import RuleResult
 
 RAWEXPR = "ast::RawExpr"
+BMOD = ["eval::bind"]
+SMOD = ["eval::scope"]
 SCOPE_FNS = ("eval::scope::ScopeStack::declare", "eval::scope::ScopeStack::assign",
              "eval::scope::ScopeStack::get")
 BINDABLE = {"Var", "Index", "RangeIndex", "Prop", "Object", "List"}
@@ -58,7 +60,7 @@ def rule_R20_1(ctx):
                    "name set declares something, or makes `[_, _]` a duplicate")
     n = 0
     for f in prog.hand_fns():
-        if not f.module.startswith("eval::bind") or f.is_closure or f.from_expansion:
+        if not f.module.startswith(BMOD[0]) or f.is_closure or f.from_expansion:
             continue
         tests = underscore_tests(f)
         if not tests:
@@ -74,7 +76,7 @@ def rule_R20_1(ctx):
                 continue
             res = c.res or ""
             sensitive = res in SCOPE_FNS or "HashSet" in (c.res_full or "") and res.split("::")[-1] in ("insert", "contains") \
-                or (prog.fns.get(res) is not None and prog.fns[res].module.startswith("eval::bind")
+                or (prog.fns.get(res) is not None and prog.fns[res].module.startswith(BMOD[0])
                     and not prog.fns[res].is_closure) \
                 or ("BTreeMap" in (c.res_full or "") and res.split("::")[-1] in ("get", "get_mut", "insert"))
             if not sensitive:
@@ -99,7 +101,7 @@ def rule_R20_1(ctx):
     r.require_floor("name binders with a `_` test", n, 2)
     # every caller of declare/assign sits in a function with such a test
     for f in prog.hand_fns():
-        if f.module.startswith("eval::scope"):
+        if f.module.startswith(SMOD[0]):
             continue
         for c in f.calls():
             if not c.is_ptr and c.res in SCOPE_FNS[:2]:
@@ -118,7 +120,7 @@ def rule_R20_2(ctx):
                    "an overwriting declare silently redefines a name")
     f = prog.fns.get("eval::scope::ScopeStack::declare")
     if f is None:
-        cands = [g for g in prog.hand_fns() if g.module.startswith("eval::scope")
+        cands = [g for g in prog.hand_fns() if g.module.startswith(SMOD[0])
                  and any("HashMap" in (c.res_full or "") and (c.res or "").endswith("::insert") for c in g.calls())]
         f = cands[0] if cands else None
     if f is None:
@@ -193,7 +195,7 @@ def rule_R20_3(ctx):
     found_binder = found_validator = 0
     # binder: switch on a RawExpr parameter
     for f, path in rawexpr_fns(prog):
-        if not f.module.startswith("eval::bind"):
+        if not f.module.startswith(BMOD[0]):
             continue
         vf = mir.VariantFlow(f, [(path, RAWEXPR)])
         rej = set()
@@ -268,7 +270,7 @@ def rule_R20_4(ctx):
                    "hides use-before-declaration")
     n = 0
     for f in prog.hand_fns():
-        if f.module.startswith("eval::scope") or f.from_expansion:
+        if f.module.startswith(SMOD[0]) or f.from_expansion:
             continue
         for c in f.calls():
             if c.is_ptr or c.res not in ("eval::scope::ScopeStack::get", "eval::scope::ScopeStack::assign"):
@@ -352,6 +354,9 @@ def rule_R20_6(ctx):
 
 
 def run(ctx):
+    import anchors
+    BMOD[0] = anchors.binder_module(ctx.prog)
+    SMOD[0] = anchors.scope_module(ctx.prog)
     return [rule_R20_1(ctx), rule_R20_2(ctx), rule_R20_3(ctx), rule_R20_4(ctx), rule_R20_5(ctx),
             rule_R20_6(ctx)]
 
